@@ -112,8 +112,17 @@ func (u *Unit) argShape(e ast.Expr, at ast.Node, depth int) string {
 		if tv, ok := u.Info.Types[x.Fun]; ok && tv.IsType() && len(x.Args) == 1 {
 			return u.argShape(x.Args[0], at, depth)
 		}
+		if hs := u.helperResultShape(x, 0, depth); hs != "" {
+			return hs
+		}
 		name := "call"
 		switch f := ast.Unparen(x.Fun).(type) {
+		case *ast.IndexListExpr:
+			if s, ok := ast.Unparen(f.X).(*ast.SelectorExpr); ok {
+				name = s.Sel.Name
+			} else if id := identOf(f.X); id != nil {
+				name = id.Name
+			}
 		case *ast.Ident:
 			name = f.Name
 		case *ast.SelectorExpr:
@@ -122,8 +131,11 @@ func (u *Unit) argShape(e ast.Expr, at ast.Node, depth int) string {
 				// method chains are bounded by syntax: walking down the receiver chain costs no depth; only
 				// following a local variable to its definition does
 				nd := depth
-				if _, isIdent := ast.Unparen(f.X).(*ast.Ident); isIdent {
-					nd = depth + 2
+				if id, isIdent := ast.Unparen(f.X).(*ast.Ident); isIdent {
+					// parameters, fields and package variables render without following anything
+					if v, ok := u.Info.Uses[id].(*types.Var); !ok || !(v.IsField() || u.paramShape(v) != "" || (v.Pkg() != nil && v.Parent() == v.Pkg().Scope())) {
+						nd = depth + 2
+					}
 				}
 				if nd < 5 {
 					base := u.argShape(f.X, at, nd)
@@ -487,8 +499,13 @@ func (u *Unit) condContextParts(n ast.Node) []string {
 }
 
 // ctxPart renders one enclosing mode condition independent of how the branch is written:
-// `if a != b {X}` is `else(a==b)`, `if !(c) {X}` is `else(c)`, `if a >= b` is `else(a<b)`.
+// `if a != b {X}` is `else(a==b)`, `if !(c) {X}` is `else(c)`, `if a >= b` is `else(a<b)`, and by De Morgan
+// `if A && B {X}` is `if(A),if(B)` exactly like `if !A || !B { return }; X`.
 func (u *Unit) ctxPart(taken bool, cond ast.Expr) string {
+	return strings.Join(u.ctxParts(taken, cond), ",")
+}
+
+func (u *Unit) ctxParts(taken bool, cond ast.Expr) []string {
 	cond = ast.Unparen(cond)
 	for {
 		ue, ok := cond.(*ast.UnaryExpr)
@@ -497,6 +514,15 @@ func (u *Unit) ctxPart(taken bool, cond ast.Expr) string {
 		}
 		cond = ast.Unparen(ue.X)
 		taken = !taken
+	}
+	if be, ok := cond.(*ast.BinaryExpr); ok && (be.Op == token.LAND || be.Op == token.LOR) {
+		if (be.Op == token.LAND) == taken {
+			// conjunction of the operands' literals
+			return append(u.ctxParts(taken, be.X), u.ctxParts(taken, be.Y)...)
+		}
+		alts := []string{strings.Join(u.ctxParts(taken, be.X), "&"), strings.Join(u.ctxParts(taken, be.Y), "&")}
+		sort.Strings(alts)
+		return []string{"any(" + strings.Join(alts, "|") + ")"}
 	}
 	text := ""
 	if be, ok := cond.(*ast.BinaryExpr); ok {
@@ -524,12 +550,20 @@ func (u *Unit) ctxPart(taken bool, cond ast.Expr) string {
 		}
 	}
 	if text == "" {
+		if id, ok := cond.(*ast.Ident); ok {
+			// a boolean local (flag, comma-ok, helper result) – how it was computed is the guards' concern
+			if v, ok := u.Info.Uses[id].(*types.Var); ok && !v.IsField() && u.paramShape(v) == "" {
+				text = "<bool>"
+			}
+		}
+	}
+	if text == "" {
 		text = u.argShape(cond, cond, 3)
 	}
 	if taken {
-		return "if(" + text + ")"
+		return []string{"if(" + text + ")"}
 	}
-	return "else(" + text + ")"
+	return []string{"else(" + text + ")"}
 }
 
 // earlyReturnContext: statements that follow `if c { ...; return <success> }` run under else(c), exactly
@@ -647,5 +681,5 @@ func (u *Unit) helperResultShape(e ast.Expr, idx, depth int) string {
 	if n != 1 || ret == nil || idx >= len(ret.Results) {
 		return ""
 	}
-	return hu.argShape(ret.Results[idx], ret, depth+2)
+	return newParamSubst(u, c).apply(hu.argShape(ret.Results[idx], ret, depth+2))
 }
